@@ -71,8 +71,9 @@ def _large_case(case):
     if mode == "1D":
         lists = [list(range(1, ln + 1))]
     else:
-        # list j: a single borehole, then rows of j + 1 boreholes: increasing along the list, last elements increasing with j
-        lists = [[1] + [(j + 1) * k for k in range(2, ln + 1)] for j in range(1, nl + 1)]
+        # list j: a single borehole, then j + 2, j + 3, ... boreholes: increasing along the list, last elements increasing with j. The counts
+        # are kept small on purpose: the outer search of Bisection2D holds the last field of EVERY list in memory
+        lists = [[1] + [j + k for k in range(2, ln + 1)] for j in range(1, nl + 1)]
     allc = sorted({c for l in lists for c in l})
     need = rnd.choice(allc[1:]) - 0.5
     b = {"mode": mode, "cfg": {"lists": lists, "cap": 0, "cont": False, "flow": "BOREHOLE" if seed % 2 else "SYSTEM"}, "memo": [], "need": need, "rwgrid": 8, "lazy": True}
